@@ -103,6 +103,7 @@ type ZEmbPtrBeforeOut struct {
 	*V5
 	ZBaseOut
 }
+
 // parameter / result objects that embed ANOTHER object whose type name is lower case (an unexported embedded field)
 type zcommonIn struct {
 	dig.In
